@@ -15,6 +15,8 @@ for m in muts:
     d=os.path.join(V,"seeded",m)
     meta=json.load(open(d+"/meta.json"))
     prop=meta["property"]
+    if meta.get("obsolete"):
+        print("%-10s obsolete: %s"%(m, meta["obsolete"][:110]),flush=True); continue
     assert subprocess.run(["git","-C",R,"status","--porcelain"],capture_output=True,text=True).stdout.strip()=="", "repo dirty"
     a=subprocess.run(["git","-C",R,"apply",d+"/patch.diff"],capture_output=True,text=True)
     if a.returncode!=0:
